@@ -475,4 +475,758 @@ theorem seq_exact_core (sp : SeqParams) (fr to inc : Int)
       (by rw [hto]; omega) (by rw [hto]; exact hno) hfr2
     rw [this, habs]
 
+/-! ## Well-formedness of the output of `SplitBraces` -/
+
+@[simp] theorem wf_nil : wf [] = true := by simp [wf]
+@[simp] theorem wf_cons (p : Part) (ps : List Part) : wf (p :: ps) = (wfPart p && wf ps) := by
+  simp [wf]
+@[simp] theorem wfPart_lit (v : Bytes) : wfPart (.lit v) = true := by simp [wfPart]
+@[simp] theorem wfElems_nil : wfElems [] = true := by simp [wfElems]
+@[simp] theorem wfElems_cons (e : List Part) (es : List (List Part)) :
+    wfElems (e :: es) = (wf e && wfElems es) := by simp [wfElems]
+
+theorem wf_append (a b : List Part) : wf (a ++ b) = (wf a && wf b) := by
+  induction a with
+  | nil => simp
+  | cons p ps ih => simp [ih, Bool.and_assoc]
+
+theorem wfElems_append (a b : List (List Part)) :
+    wfElems (a ++ b) = (wfElems a && wfElems b) := by
+  induction a with
+  | nil => simp
+  | cons p ps ih => simp [ih, Bool.and_assoc]
+
+theorem wf_joinParts (sep : Bytes) (elems : List Word) :
+    wf (joinParts (.lit sep) elems) = wfElems elems := by
+  cases elems with
+  | nil => simp [joinParts]
+  | cons e es =>
+    induction es generalizing e with
+    | nil => simp [joinParts]
+    | cons e' es' ih =>
+      have := ih e'
+      simp only [joinParts, wf_append, wf_cons, wfPart_lit, wfElems_cons, Bool.true_and] at this ⊢
+      rw [this]
+
+theorem wf_mergeDots (elems : List Word) : wf (mergeDots elems) = wfElems elems := by
+  cases elems with
+  | nil => simp [mergeDots]
+  | cons e es =>
+    simp only [mergeDots, wf_append, wfElems_cons]
+    congr 1
+    induction es with
+    | nil => simp
+    | cons e' es' ih => simp only [dots] at ih ⊢; simp [wf_append, ih]
+
+def FrameWf (f : Frame) : Prop := wfElems f.done = true ∧ wf f.cur = true
+
+def StWf (st : St) : Prop := wf st.top = true ∧ ∀ f ∈ st.stack, FrameWf f
+
+theorem frameWf_elems (f : Frame) (h : FrameWf f) : wfElems f.elems = true := by
+  simp [Frame.elems, wfElems_append, h.1, h.2]
+
+theorem stWf_addParts (st : St) (ps : List Part) (h : StWf st) (hp : wf ps = true) :
+    StWf (st.addParts ps) := by
+  unfold St.addParts
+  cases hs : st.stack with
+  | nil => exact ⟨by simp [wf_append, h.1, hp], by simp⟩
+  | cons f fs =>
+    refine ⟨h.1, ?_⟩
+    intro g hg
+    simp only [List.mem_cons] at hg
+    rcases hg with rfl | hg
+    · have := h.2 f (by simp [hs])
+      exact ⟨this.1, by simp [wf_append, this.2, hp]⟩
+    · exact h.2 g (by simp [hs, hg])
+
+theorem stWf_add (st : St) (p : Part) (h : StWf st) (hp : wfPart p = true) : StWf (st.add p) :=
+  stWf_addParts st [p] h (by simp [hp])
+
+theorem stWf_flush (st : St) (pend : Bytes) (h : StWf st) : StWf (st.flush pend) := by
+  unfold St.flush; split
+  · exact h
+  · exact stWf_add st _ h (by simp)
+
+theorem stWf_openBrace (st : St) (h : StWf st) : StWf st.openBrace := by
+  refine ⟨h.1, ?_⟩
+  intro g hg
+  simp only [St.openBrace, List.mem_cons] at hg
+  rcases hg with rfl | hg
+  · exact ⟨by simp, by simp⟩
+  · exact h.2 g hg
+
+theorem stWf_commaStep (st : St) (h : StWf st) : StWf st.commaStep := by
+  unfold St.commaStep
+  cases hs : st.stack with
+  | nil => simpa [hs] using h
+  | cons f fs =>
+    have hf := h.2 f (by simp [hs])
+    have hrest : ∀ g ∈ fs, FrameWf g := fun g hg => h.2 g (by simp [hs, hg])
+    simp only
+    split
+    · refine ⟨h.1, ?_⟩
+      intro g hg
+      simp only [List.mem_cons] at hg
+      rcases hg with rfl | hg
+      · exact ⟨by simp [wf_mergeDots, frameWf_elems f hf], by simp⟩
+      · exact hrest g hg
+    · refine ⟨h.1, ?_⟩
+      intro g hg
+      simp only [List.mem_cons] at hg
+      rcases hg with rfl | hg
+      · exact ⟨frameWf_elems f hf, by simp⟩
+      · exact hrest g hg
+
+theorem stWf_dotsStep (st : St) (h : StWf st) : StWf st.dotsStep := by
+  unfold St.dotsStep
+  cases hs : st.stack with
+  | nil => simpa [hs] using h
+  | cons f fs =>
+    have hf := h.2 f (by simp [hs])
+    refine ⟨h.1, ?_⟩
+    intro g hg
+    simp only [List.mem_cons] at hg
+    rcases hg with rfl | hg
+    · exact ⟨frameWf_elems f hf, by simp⟩
+    · exact h.2 g (by simp [hs, hg])
+
+theorem stWf_closeStep (st : St) (h : StWf st) : StWf st.closeStep := by
+  unfold St.closeStep
+  cases hs : st.stack with
+  | nil => simpa [hs] using h
+  | cons f fs =>
+    have hf := h.2 f (by simp [hs])
+    have hel := frameWf_elems f hf
+    have hst' : StWf { top := st.top, stack := fs } :=
+      ⟨h.1, fun g hg => h.2 g (by simp [hs, hg])⟩
+    simp only
+    cases hd : f.done with
+    | nil =>
+      simp only
+      exact stWf_add _ _ (stWf_addParts _ _ (stWf_add _ _ hst' (by simp)) hf.2) (by simp)
+    | cons d ds =>
+      simp only
+      split
+      · apply stWf_add _ _ hst'
+        rename_i hseq
+        have : f.seq = false := by simpa using hseq
+        have hel' := hel
+        simp only [Frame.elems] at hel'
+        simp [wfPart, this, hel', Frame.elems]
+      · rename_i hseq
+        have hseq' : f.seq = true := by simpa using hseq
+        split
+        · rename_i hv
+          apply stWf_add _ _ hst'
+          simp [wfPart, hv, hel]
+        · exact stWf_add _ _ (stWf_addParts _ _ (stWf_add _ _ hst' (by simp))
+            (by rw [wf_joinParts]; exact hel)) (by simp)
+
+theorem stWf_scan (rest : Bytes) : ∀ (st : St) (mode : Mode) (pend : Bytes), StWf st →
+    StWf (scan st mode pend rest).1 := by
+  induction rest with
+  | nil => intro st mode pend h; simpa [scan] using h
+  | cons c rest ih =>
+    intro st mode pend h
+    cases mode with
+    | esc => simp only [scan]; exact ih _ _ _ h
+    | skip => simp only [scan]; exact ih _ _ _ h
+    | normal =>
+      simp only [scan]
+      split
+      · exact ih _ _ _ h
+      · split
+        · exact ih _ _ _ (stWf_openBrace _ (stWf_flush _ _ h))
+        · split
+          · split
+            · exact ih _ _ _ h
+            · exact ih _ _ _ (stWf_commaStep _ (stWf_flush _ _ h))
+          · split
+            · split
+              · exact ih _ _ _ h
+              · split
+                · split
+                  · exact ih _ _ _ h
+                  · exact ih _ _ _ (stWf_dotsStep _ (stWf_flush _ _ h))
+                · exact ih _ _ _ h
+            · split
+              · split
+                · exact ih _ _ _ h
+                · exact ih _ _ _ (stWf_closeStep _ (stWf_flush _ _ h))
+              · exact ih _ _ _ h
+
+theorem wf_unwind (stack : List Frame) : ∀ (carry : List Part) (top : Word),
+    wf top = true → (∀ f ∈ stack, FrameWf f) → wf carry = true →
+    wf (unwind stack carry top) = true := by
+  induction stack with
+  | nil => intro carry top ht _ hc; simp [unwind, wf_append, ht, hc]
+  | cons f fs ih =>
+    intro carry top ht hfs hc
+    simp only [unwind]
+    apply ih _ _ ht (fun g hg => hfs g (by simp [hg]))
+    have hf := hfs f (by simp)
+    have : wf (joinParts (if f.seq = true then Part.lit dots else Part.lit [cComma])
+        (f.done ++ [f.cur ++ carry])) = true := by
+      have h2 : wfElems (f.done ++ [f.cur ++ carry]) = true := by
+        simp [wfElems_append, wf_append, hf.1, hf.2, hc]
+      cases f.seq <;> simp [wf_joinParts, h2]
+    simp [this]
+
+theorem wf_split (w : Bytes) : wf (splitBraces w).1 = true := by
+  unfold splitBraces
+  split
+  · simp
+  · simp only
+    have h := stWf_scan w { top := [], stack := [] } .normal [] ⟨by simp, by simp⟩
+    generalize scan { top := [], stack := [] } Mode.normal [] w = res at h
+    obtain ⟨st, pend⟩ := res
+    simp only at h ⊢
+    have h2 := stWf_add st (.lit pend) h (by simp)
+    exact wf_unwind _ _ _ h2.1 h2.2 (by simp)
+
+/-! ## `bracesSeqRec`: shape lemmas -/
+
+theorem splitAtBrace_none (w left : List Part) (h : splitAtBrace w = (left, none)) :
+    left = w ∧ w.all Part.isLit = true := by
+  induction w generalizing left with
+  | nil => simp [splitAtBrace] at h; simp [h]
+  | cons p ps ih =>
+    cases p with
+    | lit v =>
+      simp only [splitAtBrace] at h
+      cases hr : splitAtBrace ps with
+      | mk l r =>
+        rw [hr] at h
+        simp only [Prod.mk.injEq] at h
+        obtain ⟨h1, h2⟩ := h
+        subst h2
+        have := ih l hr
+        simp [← h1, this.1, this.2, Part.isLit]
+    | brace seq elems => simp [splitAtBrace] at h
+
+theorem splitAtBrace_some (w left : List Part) (seq : Bool) (elems : List Word) (rest : List Part)
+    (h : splitAtBrace w = (left, some (seq, elems, rest))) :
+    w = left ++ .brace seq elems :: rest ∧ left.all Part.isLit = true := by
+  induction w generalizing left with
+  | nil => simp [splitAtBrace] at h
+  | cons p ps ih =>
+    cases p with
+    | lit v =>
+      simp only [splitAtBrace] at h
+      cases hr : splitAtBrace ps with
+      | mk l r =>
+        rw [hr] at h
+        simp only [Prod.mk.injEq] at h
+        obtain ⟨h1, h2⟩ := h
+        subst h2
+        have := ih l hr
+        rw [← h1]
+        simp [this.2, Part.isLit]
+        exact this.1
+    | brace seq' elems' =>
+      simp only [splitAtBrace, Prod.mk.injEq, Option.some.injEq] at h
+      obtain ⟨h1, h2, h3, h4⟩ := h
+      subst h1 h2 h3 h4
+      simp
+
+@[simp] theorem bracesIn_nil : bracesIn [] = 0 := by simp [bracesIn]
+@[simp] theorem bracesIn_cons (p : Part) (ps : List Part) :
+    bracesIn (p :: ps) = bracesInPart p + bracesIn ps := by simp [bracesIn]
+@[simp] theorem bracesInPart_lit (v : Bytes) : bracesInPart (.lit v) = 0 := by simp [bracesInPart]
+@[simp] theorem bracesInPart_brace (seq : Bool) (elems : List Word) :
+    bracesInPart (.brace seq elems) = 1 + bracesInElems elems := by simp [bracesInPart]
+@[simp] theorem bracesInElems_nil : bracesInElems [] = 0 := by simp [bracesInElems]
+@[simp] theorem bracesInElems_cons (e : Word) (es : List Word) :
+    bracesInElems (e :: es) = bracesIn e + bracesInElems es := by simp [bracesInElems]
+
+theorem bracesIn_append (a b : List Part) : bracesIn (a ++ b) = bracesIn a + bracesIn b := by
+  induction a with
+  | nil => simp
+  | cons p ps ih => simp [ih]; omega
+
+theorem bracesIn_le_elems (elems : List Word) (e : Word) (h : e ∈ elems) :
+    bracesIn e ≤ bracesInElems elems := by
+  induction elems with
+  | nil => cases h
+  | cons x xs ih =>
+    simp only [List.mem_cons] at h
+    rcases h with rfl | h
+    · simp
+    · have := ih h; simp; omega
+
+theorem wf_of_mem_elems (elems : List Word) (e : Word) (h : e ∈ elems)
+    (hw : wfElems elems = true) : wf e = true := by
+  induction elems with
+  | nil => cases h
+  | cons x xs ih =>
+    simp only [wfElems_cons, Bool.and_eq_true] at hw
+    simp only [List.mem_cons] at h
+    rcases h with rfl | h
+    · exact hw.1
+    · exact ih h hw.2
+
+theorem endpointKind_some (e : Word) (k : Bool) (h : endpointKind e = some k) :
+    (k = false ∧ (parseInt (litOf e)).2 = true) ∨
+    (k = true ∧ (parseInt (litOf e)).2 = false ∧ ∃ c, litOf e = [c] ∧ asciiLetter c = true) := by
+  unfold endpointKind at h
+  by_cases p : (parseInt (litOf e)).2 = true
+  · simp only [p, if_true, Option.some.injEq] at h
+    exact Or.inl ⟨h.symm, p⟩
+  · simp only [p] at h
+    right
+    have p' : (parseInt (litOf e)).2 = false := by simpa using p
+    simp only [Bool.false_eq_true, if_false] at h
+    cases hl : litOf e with
+    | nil => rw [hl] at h; simp at h
+    | cons c t =>
+      cases t with
+      | cons d t' => rw [hl] at h; simp at h
+      | nil =>
+        rw [hl] at h
+        simp only at h
+        by_cases hc : asciiLetter c = true
+        · simp only [hc, if_true, Option.some.injEq] at h
+          exact ⟨h.symm, by rw [← hl]; exact p', c, rfl, hc⟩
+        · simp [hc] at h
+
+theorem seqParams_of_valid (elems : List Word) (h : seqValid elems = true) :
+    ∃ sp, seqParams elems = some sp := by
+  unfold seqValid at h
+  match elems, h with
+  | e0 :: e1 :: more, h =>
+    simp only [seqParams]
+    cases hk0 : endpointKind e0 with
+    | none => simp [hk0] at h
+    | some k0 =>
+      cases hk1 : endpointKind e1 with
+      | none => simp [hk0, hk1] at h
+      | some k1 =>
+        simp only [hk0, hk1, Bool.and_eq_true, beq_iff_eq] at h
+        obtain ⟨_, hk⟩ := h
+        subst hk
+        rcases endpointKind_some e0 k0 hk0 with ⟨_, p0⟩ | ⟨hk, p0, a, ha, _⟩
+        · rcases endpointKind_some e1 k0 hk1 with ⟨_, p1⟩ | ⟨hk', _⟩
+          · simp [p0, p1]
+          · simp_all
+        · rcases endpointKind_some e1 k0 hk1 with ⟨hk', _⟩ | ⟨_, p1, b, hb, _⟩
+          · simp_all
+          · rw [ha] at p0; rw [hb] at p1
+            simp [p0, p1, ha, hb]
+
+theorem altLoop_total (f : Nat → Word → Option (List Word)) (rest : List Part) (elems : List Word)
+    (hf : ∀ e ∈ elems, ∀ b, ∃ r, f b (e ++ rest) = some r) :
+    ∀ budget, ∃ r, altLoop f rest elems budget = some r := by
+  induction elems with
+  | nil => intro b; simp [altLoop]
+  | cons e es ih =>
+    intro b
+    simp only [altLoop]
+    split
+    · exact ⟨_, rfl⟩
+    · obtain ⟨r, hr⟩ := hf e (by simp) b
+      obtain ⟨r', hr'⟩ := ih (fun e' he' => hf e' (by simp [he'])) (b - r.length)
+      simp [hr, hr']
+
+theorem bracesRec_total : ∀ (fuel budget : Nat) (w : Word), wf w = true → bracesIn w < fuel →
+    ∃ r, bracesRec fuel budget w = some r := by
+  intro fuel
+  induction fuel with
+  | zero => intro _ _ _ h; omega
+  | succ fuel ih =>
+    intro budget w hw hfuel
+    simp only [bracesRec]
+    cases hsp : splitAtBrace w with
+    | mk left o =>
+      cases o with
+      | none => simp
+      | some t =>
+        obtain ⟨seq, elems, rest⟩ := t
+        obtain ⟨hweq, hleft⟩ := splitAtBrace_some w left seq elems rest hsp
+        subst hweq
+        simp only [wf_append, wf_cons, Bool.and_eq_true] at hw
+        obtain ⟨_, hbr, hrest⟩ := hw
+        simp only [bracesIn_append, bracesIn_cons, bracesInPart_brace] at hfuel
+        simp only [wfPart, Bool.and_eq_true] at hbr
+        obtain ⟨hshape, helems⟩ := hbr
+        simp only
+        cases seq with
+        | false =>
+          simp only [Bool.false_eq_true, if_false]
+          obtain ⟨r, hr⟩ := altLoop_total (bracesRec fuel) rest elems (by
+            intro e he b
+            apply ih
+            · simp [wf_append, wf_of_mem_elems elems e he helems, hrest]
+            · have := bracesIn_le_elems elems e he
+              simp only [bracesIn_append]; omega) budget
+          simp [hr]
+        | true =>
+          simp only [if_true] at hshape ⊢
+          obtain ⟨sp, hsp'⟩ := seqParams_of_valid elems hshape
+          simp only [hsp']
+          obtain ⟨r, hr⟩ := altLoop_total (bracesRec fuel) rest
+            ((seqVals sp budget sp.from).map fun n => [Part.lit (fmtSeq sp n)]) (by
+            intro e he b
+            simp only [List.mem_map] at he
+            obtain ⟨n, _, rfl⟩ := he
+            apply ih
+            · simp [hrest]
+            · simp; omega) budget
+          simp [hr]
+
+/-! ## Denotation lemmas -/
+
+@[simp] theorem denot_nil : denot [] = [[]] := by simp [denot]
+@[simp] theorem denot_cons (p : Part) (ps : List Part) :
+    denot (p :: ps) = cross (denotPart p) (denot ps) := by simp [denot]
+@[simp] theorem denotPart_lit (v : Bytes) : denotPart (.lit v) = [v] := by simp [denotPart]
+@[simp] theorem denotElems_nil : denotElems [] = [] := by simp [denotElems]
+@[simp] theorem denotElems_cons (e : Word) (es : List Word) :
+    denotElems (e :: es) = denot e ++ denotElems es := by simp [denotElems]
+
+@[simp] theorem cross_nil_left (b : List Bytes) : cross [] b = [] := by simp [cross]
+theorem cross_cons_left (x : Bytes) (a b : List Bytes) :
+    cross (x :: a) b = b.map (x ++ ·) ++ cross a b := by simp [cross]
+theorem cross_append_left (a a' b : List Bytes) : cross (a ++ a') b = cross a b ++ cross a' b := by
+  simp [cross]
+theorem cross_single_left (x : Bytes) (b : List Bytes) : cross [x] b = b.map (x ++ ·) := by
+  simp [cross]
+@[simp] theorem cross_unit_right (a : List Bytes) : cross a [[]] = a := by
+  induction a with
+  | nil => simp
+  | cons x xs ih => simp [cross_cons_left, ih]
+theorem cross_unit_left (b : List Bytes) : cross [[]] b = b := by
+  simp [cross]
+
+theorem cross_map_left (x : Bytes) (a b : List Bytes) :
+    cross (a.map (x ++ ·)) b = (cross a b).map (x ++ ·) := by
+  induction a with
+  | nil => simp
+  | cons y ys ih =>
+    simp only [List.map_cons, cross_cons_left, List.map_append, ih, List.map_map]
+    congr 1
+    apply List.map_congr_left
+    intro z _
+    simp
+
+theorem cross_assoc (a b c : List Bytes) : cross (cross a b) c = cross a (cross b c) := by
+  induction a with
+  | nil => simp
+  | cons x xs ih =>
+    simp only [cross_cons_left, cross_append_left, ih, cross_map_left]
+
+theorem denot_append (a b : List Part) : denot (a ++ b) = cross (denot a) (denot b) := by
+  induction a with
+  | nil => simp [cross_unit_left]
+  | cons p ps ih => simp [ih, cross_assoc]
+
+theorem denot_allLit (a : List Part) (h : a.all Part.isLit = true) : denot a = [render a] := by
+  induction a with
+  | nil => simp
+  | cons p ps ih =>
+    simp only [List.all_cons, Bool.and_eq_true] at h
+    cases p with
+    | lit v => simp [ih h.2, cross_single_left]
+    | brace s e => have := h.1; simp [Part.isLit] at this
+
+theorem cross_length (a b : List Bytes) : (cross a b).length = a.length * b.length := by
+  induction a with
+  | nil => simp
+  | cons x xs ih => simp [cross_cons_left, ih, Nat.succ_mul]; omega
+
+theorem arith_length (a d : Int) (n : Nat) : (arith a d n).length = n := by
+  induction n generalizing a with
+  | zero => simp [arith]
+  | succ n ih => simp [arith, ih]
+
+theorem seqTexts_length (elems : List Word) : (seqTexts elems).length = seqCount elems := by
+  unfold seqTexts seqCount
+  cases seqParams elems with
+  | none => simp
+  | some sp => simp [idealSeq, arith_length]
+
+mutual
+theorem denotPart_length : ∀ p : Part, (denotPart p).length = countPart p
+  | .lit v => by simp [countPart]
+  | .brace seq elems => by
+    cases seq with
+    | true => simp [denotPart, countPart, seqTexts_length]
+    | false => simp [denotPart, countPart, denotElems_length elems]
+theorem denot_length : ∀ w : List Part, (denot w).length = count w
+  | [] => by simp [count]
+  | p :: ps => by simp [count, cross_length, denotPart_length p, denot_length ps]
+theorem denotElems_length : ∀ es : List (List Part), (denotElems es).length = countElems es
+  | [] => by simp [countElems]
+  | e :: es => by simp [countElems, denot_length e, denotElems_length es]
+end
+
+/-! ## `bracesSeqRec` refines the denotation (no overflow) -/
+
+@[simp] theorem noOv_nil : noOv [] = true := by simp [noOv]
+@[simp] theorem noOv_cons (p : Part) (ps : List Part) : noOv (p :: ps) = (noOvPart p && noOv ps) := by
+  simp [noOv]
+@[simp] theorem noOvPart_lit (v : Bytes) : noOvPart (.lit v) = true := by simp [noOvPart]
+@[simp] theorem noOvElems_nil : noOvElems [] = true := by simp [noOvElems]
+@[simp] theorem noOvElems_cons (e : List Part) (es : List (List Part)) :
+    noOvElems (e :: es) = (noOv e && noOvElems es) := by simp [noOvElems]
+
+theorem noOv_append (a b : List Part) : noOv (a ++ b) = (noOv a && noOv b) := by
+  induction a with
+  | nil => simp
+  | cons p ps ih => simp [ih, Bool.and_assoc]
+
+theorem noOv_of_mem_elems (elems : List Word) (e : Word) (h : e ∈ elems)
+    (hw : noOvElems elems = true) : noOv e = true := by
+  induction elems with
+  | nil => cases h
+  | cons x xs ih =>
+    simp only [noOvElems_cons, Bool.and_eq_true] at hw
+    simp only [List.mem_cons] at h
+    rcases h with rfl | h
+    · exact hw.1
+    · exact ih h hw.2
+
+theorem parseDigits_in64 (neg : Bool) (ds : Bytes) :
+    minI64 ≤ (parseDigits neg ds).1 ∧ (parseDigits neg ds).1 ≤ maxI64 := by
+  unfold parseDigits
+  by_cases h1 : ds = []
+  · simp [h1, minI64, maxI64]
+  · by_cases h2 : (!ds.all isDigit) = true
+    · simp [h1, h2, minI64, maxI64]
+    · simp only [h1, h2, if_false]
+      generalize (if neg = true then -(digitsVal ds : Int) else (digitsVal ds : Int)) = v
+      simp only [minI64, maxI64, Bool.false_eq_true, if_false]
+      by_cases h3 : v > 9223372036854775807
+      · simp [h3]
+      · by_cases h4 : v < -9223372036854775808
+        · simp [h3, h4]
+        · simp only [h3, h4, if_false]; omega
+
+theorem byte_in64 (a : UInt8) : minI64 ≤ (a.toNat : Int) ∧ (a.toNat : Int) ≤ maxI64 := by
+  have := a.toNat_lt
+  simp only [minI64, maxI64]
+  constructor <;> omega
+
+theorem parseInt_in64 (s : Bytes) : minI64 ≤ (parseInt s).1 ∧ (parseInt s).1 ≤ maxI64 := by
+  unfold parseInt
+  split
+  · simp [minI64, maxI64]
+  · split
+    · exact parseDigits_in64 _ _
+    · split <;> exact parseDigits_in64 _ _
+
+theorem seqRaw_in64 (elems : List Word) : minI64 ≤ seqRaw elems ∧ seqRaw elems ≤ maxI64 := by
+  unfold seqRaw
+  split
+  · exact parseInt_in64 _
+  · simp [minI64, maxI64]
+
+theorem seqParams_facts (elems : List Word) (sp : SeqParams) (h : seqParams elems = some sp) :
+    sp.upward = decide (sp.from ≤ sp.to) ∧ sp.incr = goIncr (seqRaw elems) sp.upward ∧
+    minI64 ≤ sp.from ∧ sp.from ≤ maxI64 := by
+  unfold seqParams at h
+  match elems, h with
+  | e0 :: e1 :: more, h =>
+    simp only at h
+    split at h
+    · simp at h
+    · rename_i chars fr to hends
+      simp only [Option.some.injEq] at h
+      subst h
+      refine ⟨rfl, rfl, ?_⟩
+      simp only
+      split at hends
+      · simp only [Option.some.injEq, Prod.mk.injEq] at hends
+        obtain ⟨_, h1, _⟩ := hends
+        rw [← h1]; exact parseInt_in64 _
+      · split at hends
+        · simp only [Option.some.injEq, Prod.mk.injEq] at hends
+          obtain ⟨_, h1, _⟩ := hends
+          rw [← h1]
+          exact byte_in64 _
+        · simp at hends
+
+theorem flatMap_take_take {α β : Type} (g : α → List β) (hg : ∀ x, g x ≠ []) :
+    ∀ (l : List α) (n j : Nat), j ≤ n → ((l.take n).flatMap g).take j = (l.flatMap g).take j := by
+  intro l
+  induction l with
+  | nil => intro n j _; simp
+  | cons x xs ih =>
+    intro n j hj
+    cases n with
+    | zero =>
+      have : j = 0 := by omega
+      subst this; simp
+    | succ m =>
+      simp only [List.take_succ_cons, List.flatMap_cons, List.take_append]
+      congr 1
+      have hlen : 1 ≤ (g x).length := by
+        cases hgx : g x with
+        | nil => exact absurd hgx (hg x)
+        | cons a b => simp
+      exact ih m (j - (g x).length) (by omega)
+
+theorem altLoop_spec (f : Nat → Word → Option (List Word)) (rest : List Part) (elems : List Word)
+    (hf : ∀ e ∈ elems, ∀ b, 0 < b → ∃ r, f b (e ++ rest) = some r ∧
+      r.map render = (denot (e ++ rest)).take b) :
+    ∀ budget, ∃ r, altLoop f rest elems budget = some r ∧
+      r.map render = (elems.flatMap fun e => denot (e ++ rest)).take budget := by
+  induction elems with
+  | nil => intro b; simp [altLoop]
+  | cons e es ih =>
+    intro b
+    simp only [altLoop]
+    split
+    · rename_i hb; subst hb; simp
+    · rename_i hb
+      obtain ⟨r, hr, hrr⟩ := hf e (by simp) b (by omega)
+      obtain ⟨r', hr', hrr'⟩ := ih (fun e' he' => hf e' (by simp [he'])) (b - r.length)
+      refine ⟨r ++ r', by simp [hr, hr'], ?_⟩
+      simp only [List.map_append, hrr, hrr', List.flatMap_cons, List.take_append]
+      congr 1
+      have hlen : r.length = ((denot (e ++ rest)).take b).length := by
+        rw [← hrr]; simp
+      rw [hlen, List.length_take]
+      by_cases hle : (denot (e ++ rest)).length ≤ b
+      · rw [Nat.min_eq_right hle]
+      · have h1 : min b (denot (e ++ rest)).length = b := by omega
+        have h2 : b - (denot (e ++ rest)).length = 0 := by omega
+        rw [h1, h2]; simp
+
+theorem cross_ne_nil (a b : List Bytes) (ha : a ≠ []) (hb : b ≠ []) : cross a b ≠ [] := by
+  intro h
+  have := cross_length a b
+  rw [h] at this
+  simp only [List.length_nil] at this
+  have h1 : 0 < a.length := List.length_pos_iff.mpr ha
+  have h2 : 0 < b.length := List.length_pos_iff.mpr hb
+  have := Nat.mul_pos h1 h2
+  omega
+
+theorem seqTexts_ne_nil (elems : List Word) (h : seqValid elems = true) : seqTexts elems ≠ [] := by
+  obtain ⟨sp, hsp⟩ := seqParams_of_valid elems h
+  simp [seqTexts, hsp, idealSeq, arith]
+
+mutual
+theorem denotPart_ne_nil : ∀ p : Part, wfPart p = true → denotPart p ≠ []
+  | .lit v, _ => by simp
+  | .brace seq elems, h => by
+    simp only [wfPart, Bool.and_eq_true] at h
+    cases seq with
+    | true =>
+      simp only [if_true] at h
+      simp only [denotPart, if_true]
+      exact seqTexts_ne_nil elems h.1
+    | false =>
+      simp only [Bool.false_eq_true, if_false] at h
+      simp only [denotPart, Bool.false_eq_true, if_false]
+      match elems, h with
+      | e :: es, h =>
+        simp only [wfElems_cons, Bool.and_eq_true] at h
+        simp only [denotElems_cons]
+        intro hcontra
+        have := denot_ne_nil e h.2.1
+        simp_all
+theorem denot_ne_nil : ∀ w : List Part, wf w = true → denot w ≠ []
+  | [], _ => by simp
+  | p :: ps, h => by
+    simp only [wf_cons, Bool.and_eq_true] at h
+    simp only [denot_cons]
+    exact cross_ne_nil _ _ (denotPart_ne_nil p h.1) (denot_ne_nil ps h.2)
+end
+
+theorem flatMap_denot_elems (elems : List Word) (rest : List Part) :
+    (elems.flatMap fun e => denot (e ++ rest)) = cross (denotElems elems) (denot rest) := by
+  induction elems with
+  | nil => simp
+  | cons e es ihe => simp [denot_append, cross_append_left, ← ihe]
+
+theorem bracesRec_spec : ∀ (fuel budget : Nat) (w : Word), wf w = true → noOv w = true →
+    bracesIn w < fuel → 0 < budget →
+    ∃ r, bracesRec fuel budget w = some r ∧ r.map render = (denot w).take budget := by
+  intro fuel
+  induction fuel with
+  | zero => intro _ _ _ _ h; omega
+  | succ fuel ih =>
+    intro budget w hw hno hfuel hbud
+    simp only [bracesRec]
+    cases hsp : splitAtBrace w with
+    | mk left o =>
+      cases o with
+      | none =>
+        obtain ⟨hl, hall⟩ := splitAtBrace_none w left hsp
+        subst hl
+        refine ⟨[left], rfl, ?_⟩
+        rw [denot_allLit left hall]
+        cases budget with
+        | zero => omega
+        | succ b => simp
+      | some t =>
+        obtain ⟨seq, elems, rest⟩ := t
+        obtain ⟨hweq, hleft⟩ := splitAtBrace_some w left seq elems rest hsp
+        subst hweq
+        simp only [wf_append, wf_cons, Bool.and_eq_true] at hw
+        obtain ⟨_, hbr, hrest⟩ := hw
+        simp only [noOv_append, noOv_cons, Bool.and_eq_true] at hno
+        obtain ⟨_, hnobr, hnorest⟩ := hno
+        simp only [bracesIn_append, bracesIn_cons, bracesInPart_brace] at hfuel
+        simp only [wfPart, Bool.and_eq_true] at hbr
+        obtain ⟨hshape, helems⟩ := hbr
+        simp only [noOvPart, Bool.and_eq_true] at hnobr
+        obtain ⟨hnoseq, hnoelems⟩ := hnobr
+        have hden : denot (left ++ Part.brace seq elems :: rest) =
+            (cross (denotPart (.brace seq elems)) (denot rest)).map (render left ++ ·) := by
+          rw [denot_append, denot_allLit left hleft, cross_single_left, denot_cons]
+        simp only
+        cases seq with
+        | false =>
+          simp only [Bool.false_eq_true, if_false]
+          obtain ⟨r, hr, hrr⟩ := altLoop_spec (bracesRec fuel) rest elems (by
+            intro e he b hb
+            apply ih
+            · simp [wf_append, wf_of_mem_elems elems e he helems, hrest]
+            · simp [noOv_append, noOv_of_mem_elems elems e he hnoelems, hnorest]
+            · have := bracesIn_le_elems elems e he
+              simp only [bracesIn_append]; omega
+            · exact hb) budget
+          refine ⟨r.map (left ++ ·), by simp [hr], ?_⟩
+          have : (render ∘ fun x => left ++ x) = (fun t => render left ++ t) ∘ render := by
+            funext x; simp [render_append]
+          rw [hden, ← List.map_take, List.map_map, this, ← List.map_map, hrr]
+          congr 2
+          simp only [denotPart, Bool.false_eq_true, if_false]
+          exact flatMap_denot_elems elems rest
+        | true =>
+          simp only [if_true] at hshape hnoseq ⊢
+          obtain ⟨sp, hsp'⟩ := seqParams_of_valid elems hshape
+          simp only [hsp']
+          obtain ⟨hup, hincr, hf1, hf2⟩ := seqParams_facts elems sp hsp'
+          have hraw := seqRaw_in64 elems
+          simp only [seqNoOv, hsp', decide_eq_true_eq] at hnoseq
+          have hvals := seq_exact_core sp sp.from sp.to (seqRaw elems) hf1 hf2
+            (by have := hnoseq.1; omega) hraw.2 rfl hup hincr hnoseq.2 budget
+          obtain ⟨r, hr, hrr⟩ := altLoop_spec (bracesRec fuel) rest
+            ((seqVals sp budget sp.from).map fun n => [Part.lit (fmtSeq sp n)]) (by
+            intro e he b hb
+            simp only [List.mem_map] at he
+            obtain ⟨n, _, rfl⟩ := he
+            apply ih
+            · simp [hrest]
+            · simp [hnorest]
+            · simp; omega
+            · exact hb) budget
+          refine ⟨r.map (left ++ ·), by simp [hr], ?_⟩
+          have : (render ∘ fun x => left ++ x) = (fun t => render left ++ t) ∘ render := by
+            funext x; simp [render_append]
+          rw [hden, ← List.map_take, List.map_map, this, ← List.map_map, hrr]
+          congr 1
+          rw [hvals, List.flatMap_map]
+          have hne : ∀ n : Int, (denot ([Part.lit (fmtSeq sp n)] ++ rest)) ≠ [] := by
+            intro n
+            apply denot_ne_nil
+            simp [hrest]
+          rw [flatMap_take_take _ hne _ budget budget (Nat.le_refl _)]
+          congr 1
+          simp only [denotPart, if_true, seqTexts, hsp', cross, List.flatMap_map]
+          simp [cross]
+
 end ShVerif.C16
